@@ -532,8 +532,62 @@ def diff_blocks(a, b, out, ctx=''):
             out.append((ctx, None, U(sb)))
 
 
+def stored_names(fn):
+    out = []
+    for n in ast.walk(fn):
+        if isinstance(n, ast.Name) and isinstance(n.ctx, ast.Store) and \
+                n.id not in out:
+            out.append(n.id)
+        if isinstance(n, ast.ExceptHandler) and n.name and \
+                n.name not in out:
+            out.append(n.name)
+    params = {a.arg for a in fn.args.args + fn.args.kwonlyargs}
+    return [x for x in out if x not in params]
+
+
+def align_locals(na, nb):
+    """a local renamed on one side only is not drift: when both normal
+    forms store the same number of distinct locals, the asyncio side's names
+    are mapped position by position onto the threaded side's."""
+    # order by first textual occurrence
+    def ordered(fn):
+        seen = []
+        for n in sorted((x for x in ast.walk(fn) if isinstance(x, ast.Name)
+                         and hasattr(x, 'lineno')),
+                        key=lambda x: (x.lineno, x.col_offset)):
+            if isinstance(n.ctx, ast.Store) and n.id not in seen:
+                seen.append(n.id)
+        return seen
+    ast.fix_missing_locations(na)
+    ast.fix_missing_locations(nb)
+    # re-parse to get real positions
+    ra = ast.parse(ast.unparse(na)).body[0]
+    rb = ast.parse(ast.unparse(nb)).body[0]
+    sa = [x for x in ordered(ra) if x in stored_names(ra)]
+    sb = [x for x in ordered(rb) if x in stored_names(rb)]
+    if len(sa) != len(sb) or sa == sb:
+        return na, nb
+    ren = {y: x for x, y in zip(sa, sb) if x != y}
+    if set(ren) & set(sa) or len(set(ren.values())) != len(ren):
+        return na, nb
+
+    class R(ast.NodeTransformer):
+        def visit_Name(self, n):
+            if n.id in ren:
+                return ast.Name(id=ren[n.id], ctx=n.ctx)
+            return n
+
+        def visit_ExceptHandler(self, n):
+            self.generic_visit(n)
+            if n.name in ren:
+                n.name = ren[n.name]
+            return n
+    return na, R().visit(nb)
+
+
 def diff_functions(fa, fb):
     na, nb = normalise(fa), normalise(fb)
+    na, nb = align_locals(na, nb)
     out = []
     diff_blocks(na.body, nb.body, out)
     return out
